@@ -322,8 +322,12 @@ func (sd *vfC40Side) reset() {
 var vfC40ReadCounterMoves atomic.Int64
 
 func (sd *vfC40Side) exec(op *vfC40Op) (res string) {
+	st := sd.th.GetState()
 	p, _ := vk.Catch(func() { res = sd.exec1(op) })
 	if p != nil {
+		// what every top level of the interpreter does when an exception gets there (the server per request, the REPL,
+		// the message loop): without it each failed request leaves its frames on the thread until its 256 are used up
+		sd.th.RestoreState(st)
 		if re, ok := p.(runtime.Error); ok {
 			return "ERR(runtime) " + re.Error()
 		}
